@@ -54,7 +54,7 @@ Definition xml_emit (ft : bool) (a : qname) (v : value) : xout :=
     | VLit lex dt lg =>
         (match dt with
          | Some d => if intl_string d then None
-                     else Some (ns_prefix (qn_ns d) ++ ":" ++ qn_local d)
+                     else Some (qn_str d)          (* str(value.datatype), as repaired *)
          | None => None
          end, lg, lex)
     | VQn q => (if is_qname_attr a then None else Some "xsd:QName", None, qn_str q)
